@@ -23,9 +23,11 @@ Two further scenario classes use the same clauses as a disjunction (raise + unto
                                     (save/post:C19.writes-exactly-the-serialised-bytes)
   key-file failure histories        malformed key file -> failed save/load -> repair/regenerate -> rotate, on one
                                     configuration: failed saves leave the destination untouched, the others load back
-  values outside a format's domain  control / non-XML characters, YAML look-alikes, odd keys and dynamic field names, non-string
-                                    keys, NaN/inf, huge ints, non-plain objects, deep nesting, in typed / untyped / dynamic
+  values outside a format's domain  control / non-XML characters, YAML look-alikes, odd string keys and dynamic field names,
+                                    NaN/inf, huge ints, non-plain objects, deep nesting, in typed / untyped / dynamic
                                     holders, every format, over a previous file: raise + untouched, or loads back equal
+                                    (non-string map keys and tuple values are not enumerated: outside C02's plain-data
+                                    domain, coerced as the codecs document; loads-back is read modulo that domain)
   document boundary sweep           text of every length 0..300 (all document lengths modulo 256), values beginning or
                                     ending with whitespace / control bytes, at the root and nested, every format:
                                     file == dumps, Config.load(file) and loads(file bytes) equal the saved one
@@ -1324,7 +1326,10 @@ def evaluate_keyfile_failure_history(tmp, case):
 # ---------------------------------------------------------------------------------------------------------------
 # Values outside a format's domain (or only lossily representable), over an existing previous file: the save raises
 # and leaves the destination byte-identical, or it succeeds and load() parses the file into an equal configuration.
-# Every kind is run against every format: nothing is scoped out beforehand.
+# Every kind is run against every format.  Not enumerated, by triage: non-string map keys and tuple values - they are
+# outside "plain data" (string-keyed maps, lists), which C02 names as the domain; their coercion (key -> string, tuple ->
+# list) is the documented behaviour of the codecs, and C19's "loads back equal" is read modulo that domain.  Every
+# string-key kind and every string / number / None value kind is kept.
 # ---------------------------------------------------------------------------------------------------------------
 
 
@@ -1355,15 +1360,16 @@ def outside_domain_kinds():
                        ("leading-dash", "- item"), ("question", "? q"), ("looks-like-bool", "yes"), ("looks-like-null", "null"),
                        ("looks-like-int", "1"), ("type", "type")):
         kinds["key:" + label] = ("key", (lambda key=key: key))
-    for label, key in (("int", 1), ("none", None), ("tuple", (1, 2)), ("float", 1.5), ("bool", True), ("bytes", b"k")):
-        kinds["non-str-key:" + label] = ("non-str-key", (lambda key=key: key))
+    # NOT enumerated (coordinator's triage): non-string map keys (int/None/float/bool/tuple/bytes) and tuple values.  They
+    # are outside "plain data" (string-keyed maps, lists): C02's statement names string-keyed maps and lists as the domain,
+    # their coercion (key -> string, tuple -> list) is the documented behaviour of the codec the library hands the tree
+    # to, and C19's "loads back into an equal configuration" is read modulo that domain.
     for label, num in (("nan", nan), ("inf", inf), ("-inf", -inf), ("-0.0", -0.0)):
         kinds["float:" + label] = ("float", (lambda num=num: num))
     for label, num in (("2^63", 2 ** 63), ("2^64", 2 ** 64), ("-2^63-1", -2 ** 63 - 1), ("2^70", 2 ** 70), ("10^400", 10 ** 400)):
         kinds["int:" + label] = ("int", (lambda num=num: num))
     kinds["bytes"] = ("any", lambda: b"\xff\x00raw")
     kinds["set"] = ("any", lambda: {1, 2})
-    kinds["tuple"] = ("any", lambda: (1, "a"))
     kinds["custom-object"] = ("any", lambda: Custom([1, "x"]))
     kinds["function"] = ("any", lambda: (lambda: 1))
     for n in (100, 900):
@@ -1375,7 +1381,6 @@ def outside_domain_kinds():
 OUTSIDE_HOLDERS = {
     "string": ["string-field", "any-field", "untyped-list", "untyped-dict-value", "dynamic-field-value"],
     "key": ["untyped-dict-key", "any-field-map-key", "map-in-list-key", "dynamic-field-name"],
-    "non-str-key": ["untyped-dict-key", "any-field-map-key", "map-in-list-key"],
     "float": ["float-field", "any-field", "untyped-list", "untyped-dict-value", "dynamic-field-value"],
     "int": ["int-field", "any-field", "untyped-list", "untyped-dict-value", "dynamic-field-value"],
     "any": ["any-field", "untyped-list", "untyped-dict-value", "dynamic-field-value"],
@@ -1603,8 +1608,10 @@ def rac(tier: str, seed: int) -> dict:
               "set and a decoy under the variable-expanded name; %d key-file failure histories of 3-6 steps (malformed "
               "31/33/0-byte key file before a save or a load, repair, regeneration, rotation; root or sub-configuration "
               "key file) on one configuration; %d outside-domain kinds (control/non-XML/surrogate characters, strings "
-              "that look like other YAML types, odd map keys and dynamic field names, non-string keys, NaN/inf, ints "
-              "beyond 64 bit, bytes/set/tuple/object/function, nesting depth 100 and 900) x 2-5 holders (typed fields, "
+              "that look like other YAML types, odd string map keys and dynamic field names, NaN/inf, ints beyond 64 "
+              "bit, bytes/set/object/function, nesting depth 100 and 900; non-string map keys and tuple values are not "
+              "enumerated: outside C02's plain-data domain of string-keyed maps and lists, coerced as the codecs "
+              "document, and loads-back is read modulo that domain) x 2-5 holders (typed fields, "
               "AnyField, untyped list/dict, dynamic fields) x 5 formats; os.urandom replaced by a seeded stream for the duration of the run"
               % (len(FAULTS), len(keyfile_histories()), len(unencodable_values()), len(HOLDERS), len(DEST_NAMES),
                  len(KEYFILE_FAILURE_HISTORIES), len(outside_domain_kinds())),
